@@ -39,9 +39,17 @@ func main() {
 		evidence = flag.String("evidence", "", "evidence file to write (default <verif>/evidence/<prop>.json)")
 		replay   = flag.String("replay", "", "re-evaluate the single obligation stored in this replay file")
 		list     = flag.Bool("list", false, "list obligations on stdout")
+		anchors  = flag.Bool("dump-anchors", false, "write spec/anchors.json (function fingerprints of the tree) and exit")
 	)
 	flag.Parse()
 	specDir = filepath.Join(*verif, "spec")
+	if *anchors {
+		if err := dumpAnchors(*repo, filepath.Join(specDir, "anchors.json")); err != nil {
+			fmt.Fprintln(os.Stderr, "bclverif:", err)
+			os.Exit(2)
+		}
+		return
+	}
 
 	if *replay != "" {
 		os.Exit(doReplay(*repo, *verif, *replay))
